@@ -277,6 +277,23 @@ class Ctx:
         log("[trace] %s: REJECTED at line %d of %d" % (what, hw, len(lines)))
         return False
 
+    def apalache(self, module, cfg, args, expect_error=False, timeout=600, label=""):
+        """Optional extra: Apalache run (inductive step).  Returns "ok" | "error" | "unavailable"; never a verdict."""
+        d = self.specdir()
+        outdir = os.path.join(self.scratch, "apalache-out")
+        cmd = ["apalache-mc", "check", "--out-dir=" + outdir, "--config=" + cfg] + args + [module + ".tla"]
+        t = time.time()
+        try:
+            p = subprocess.run(cmd, cwd=d, env=self.env, capture_output=True, text=True, timeout=timeout)
+            out = p.stdout + p.stderr
+            res = "ok" if "EXITCODE: OK" in out else ("error" if "Checker has found an error" in out else "unavailable")
+        except (subprocess.TimeoutExpired, FileNotFoundError):
+            res = "unavailable"
+        shutil.rmtree(outdir, ignore_errors=True)
+        self.cov.setdefault("apalache_runs", []).append(dict(label=label, args=" ".join(args), outcome=res, wall_s=round(time.time() - t, 1)))
+        log("[apalache] %s %s: %s (%.1fs)" % (module, label, res, time.time() - t))
+        return res
+
     def design(self, module, cfg=None, **kw):
         """Exhaustive TLC run that must pass (design-level obligation)."""
         r = self.tlc(module, cfg, **kw)
